@@ -103,7 +103,7 @@ PROPS = {
     },
     "C05": {
         'coq': 'Properties/C05.v',
-        'streams': ['loop'],
+        'streams': ['loop', 'loopadv'],
         'level_text': 'C05_use_after_install proves over the interleaved trace of every history (all user behaviours, all send-failure patterns) that each change-program names a uid installed at its destination since that destination last said ready; C05_ready_installs_all / C05_create_installs_first give the exact install policy.',
         'level_note': 'Coq kernel; no axioms; hand-written model of run_inner (src/run.rs), Datapath/Report (src/lib.rs) and Backend::next, with user callbacks and send failures as arbitrary oracles; tied to the code by running RunBuilder::run inline over a scripted Ipc with recording algorithms on the same histories (model and implementation logs compared after sorting hash-ordered DROP/INSTALL batches and renaming uids through the install messages). Assumes handles are used only inside the three callbacks.',
         'rule': 'structured random histories over 3 addresses x 4 flow ids: ready / create (9 algorithm names incl. prefixes, extensions, empty, 63 bytes) / measurement for live and dead flows / close / unknown, 1-4 messages per datagram (occasionally 10-14, exceeding the 1024-byte buffer), restarts, re-creates, receive errors, stop requests; 0-3 additional algorithms with duplicate names and absent instances, 6 table programs incl. a duplicate name and an uncompilable one; callbacks issue set_program/update_field/get_field lists; non-trivial = at least one change-program sent',
@@ -112,6 +112,7 @@ PROPS = {
     },
     "C09": {
         'coq': 'Properties/C09.v',
+        "pre": lambda: __import__("subprocess").run([__import__("sys").executable, __import__("os").path.join(__import__("os").path.dirname(__import__("os").path.abspath(__file__)), "gen_flowkey.py")], check=True, stdout=__import__("subprocess").DEVNULL),
         'streams': ['loop'],
         'level_text': "C09_frame: a message from address a leaves every binding (b, s), b<>a, untouched; C09_restart_discards_own_flows_only; C09_handle_origin (invariant over all histories) and C09_commands_go_to_origin: every handle command is sent to the creating address with the flow's id.",
         'level_note': 'Coq kernel; no axioms; hand-written model of run_inner (src/run.rs), Datapath/Report (src/lib.rs) and Backend::next, with user callbacks and send failures as arbitrary oracles; tied to the code by running RunBuilder::run inline over a scripted Ipc with recording algorithms on the same histories (model and implementation logs compared after sorting hash-ordered DROP/INSTALL batches and renaming uids through the install messages). Assumes handles are used only inside the three callbacks.',
@@ -214,7 +215,7 @@ PROPS = {
                       "the compiled libccp 1.2.0 C code and to the Coq model of it, and return codes, staged values and register dumps are compared.",
         "level_note": "Coq kernel; no axioms; encoder model validated differentially through the loop stream (handle commands) and this stream; libccp 1.2.0 (vendored, "
                       "checksummed, compiled unmodified with gcc under a scripted clock) is the reference datapath: an oracle, not verified.",
-        "streams": ["c06"],
+        "streams": ["c06", "loop"],
         "rule": "update lists of every 7th length 0..300 (thorough: all) plus 126..129, 221..223, 254..257 in change-program and update-fields messages; 22 register kinds "
                 "(every class, boundary indices, immediates) x 5 boundary values; programs of 1..4000 statements (image sizes straddling 65535 bytes and libccp's "
                 "255-instruction limit); each message is read by the real libccp and by its model, then an invocation shows the staged values; "
